@@ -3,7 +3,8 @@
 From Coq Require Import String.
 From Coq Require Import List Ascii ZArith Bool Lia.
 From CGV Require Import Base.PyBase Base.PyVal Base.NxGraph Resolve.Bonding Resolve.GraphOps Resolve.Pipeline
-     Resolve.MapDefs Resolve.Witness Resolve.MapProofs Resolve.CopyProofs Resolve.PipelineFull Resolve.FragidProofs Resolve.EdgeCopy Resolve.EdgeCopyGen Resolve.BondedCopy Resolve.BondingDefs.
+     Resolve.MapDefs Resolve.Witness Resolve.MapProofs Resolve.CopyProofs Resolve.PipelineFull Resolve.FragidProofs Resolve.EdgeCopy Resolve.EdgeCopyGen Resolve.BondedCopy Resolve.BondingDefs Resolve.WfMerged Resolve.CoarseCopy.
+From CGV Require Hydro.Squash Gen.HydroGen.
 From CGV Require Hydro.SquashDefs Hydro.SquashProofs Compose.GraphAdj Compose.GraphFacts.
 From CGV Require Import Compose.CutModel Compose.ComposeFlat Compose.CutSpecCheck Compose.LevelsExamples.
 Import ListNotations.
@@ -191,6 +192,41 @@ Example C02_step_bonded_edges_copy_nonvacuous :
   match base_edges base_VAB with Ok es => forallb (fun e => negb (Z.eqb (fst (fst e)) (snd (fst e)))) es | Err _ => false end = true /\
   match resolve_step_full true false fd_AB base_VAB None with Ok fo => Nat.eqb (length (fo_m2 fo)) 3 | Err _ => false end = true.
 Proof. split; vm_compute; reflexivity. Qed.
+(** ---- down to the RETURNED graph of a coarse step (Resolve/WfMerged.v, Resolve/CoarseCopy.v) *)
+(** the disconnected molecule is a well-formed networkx graph (hydro's wf_graph: distinct keys, closed symmetric adjacency, no
+    self-loop) with one attribute dict per edge - for ANY dictionary and coarse graph; so is the bonded graph when the base edges
+    join different coarse nodes (then no bond joins an atom with itself) *)
+Theorem C02_disconnected_graph_wf : forall fd meta mol fgs, resolve_disconnected fd meta = Ok (mol, fgs) -> gok mol.
+Proof. exact gok_disconnected. Qed.
+Theorem C02_bonded_graph_wf : forall fd meta m1 fg1 legacy aa m2 fg2, tmpl_dict fd -> resolve_disconnected fd meta = Ok (m1, fg1) ->
+  bonding_step legacy aa meta m1 fg1 = Ok (m2, fg2) -> (forall es, base_edges meta = Ok es -> wf_edges es) -> gok m2.
+Proof. exact bonded_gok. Qed.
+(** nothing is squashed when no bonding pair starts with '!' *)
+Theorem C02_squash_identity : forall g,
+  (forall e, In e (Squash.edge_attr_items g HydroGen.squash_edge_attr) -> Squash.starts_squash (snd e) = Ok false) -> Squash.squash_atoms g = Ok g.
+Proof. exact squash_identity. Qed.
+(** "same atoms, same internal bonds and bond orders" in the graph a COARSE step RETURNS, arbitrary dictionary of well-formed
+    templates, arbitrary coarse graph whose base edges join different coarse nodes, no atoms squashed (fo_m3 = fo_m2): every coarse
+    node with a fragment has its copy in the returned, sorted fine graph - an injective map cf from template atoms to returned
+    atoms recording exactly [coarse key] and [(fragname, atom)], with an edge exactly where the template has one, carrying the
+    template's edge attributes ([tmpl_get frag a b key] = the template's value of `key` on the edge a-b) *)
+Theorem C02_step_coarse_copy : forall legacy fd prev car fo, tmpl_dict fd -> resolve_step_full legacy false fd prev car = Ok fo ->
+  fo_m3 fo = fo_m2 fo -> (forall es, base_edges (fo_meta fo) = Ok es -> wf_edges es) ->
+  forall pre mn post fv name frag, fo_meta fo = (pre ++ mn :: post)%list ->
+  aget (S "fragname") (na mn) = Some fv -> lookup_fragment fd fv = Some (name, frag) ->
+  exists cf : Z -> Z,
+    (forall a b, In a (node_keys frag) -> In b (node_keys frag) -> cf a = cf b -> a = b) /\
+    (forall n, In n frag -> node_get (fo_mol fo) (cf (nk n)) (S "fragid") = Some (VList [VInt (nk mn)]) /\
+                            node_get (fo_mol fo) (cf (nk n)) (S "mapping") = Some (mapping_val name (nk n))) /\
+    (forall a b, In a (node_keys frag) -> In b (node_keys frag) ->
+       has_edge (fo_mol fo) (cf a) (cf b) = has_edge frag a b /\
+       forall key, edge_get (fo_mol fo) (cf a) (cf b) key = tmpl_get frag a b key).
+Proof. exact step_coarse_copy. Qed.
+(** non-vacuity: on {[#V].[#A][#B]} with the witness dictionary nothing is squashed and the step returns (the other hypotheses:
+    C02_disconnected_edges_copy_nonvacuous, C02_step_bonded_edges_copy_nonvacuous) *)
+Example C02_step_coarse_copy_nonvacuous :
+  match resolve_step_full true false fd_AB base_VAB None with Ok fo => graph_eqb (fo_m3 fo) (fo_m2 fo) | Err _ => false end = true.
+Proof. vm_compute. reflexivity. Qed.
 (** non-vacuity: the witness dictionary satisfies tmpl_dict and the loop returns on {[#V].[#A][#B]} *)
 Example C02_disconnected_edges_copy_nonvacuous :
   tmpl_dict fd_AB /\ match resolve_disconnected fd_AB base_VAB with Ok (mol, _) => Nat.eqb (length mol) 3 | Err _ => false end = true.
@@ -235,6 +271,10 @@ Print Assumptions C02_bond_atoms_in_tables.
 Print Assumptions C02_fragment_graphs_record_key.
 Print Assumptions C02_bonded_edges_copy.
 Print Assumptions C02_step_bonded_edges_copy.
+Print Assumptions C02_disconnected_graph_wf.
+Print Assumptions C02_bonded_graph_wf.
+Print Assumptions C02_squash_identity.
+Print Assumptions C02_step_coarse_copy.
 Print Assumptions C02_frag_exact.
 Print Assumptions C02_frag_cover.
 Print Assumptions C02_fragid_singleton.
